@@ -445,6 +445,11 @@ func (c16) Exec(sc *sim.Scenario, env *sim.Env) *sim.Violation {
 				if dd := eBefore.diff(snapEmitter(e), true); dd != "" {
 					return &sim.Violation{Oracle: "append_refusal_touched_clone", Step: i, Msg: "a refused Append modified the clone: " + dd}
 				}
+				if !inplace && aTargetAtClone != nil && string(aTarget) != string(aTargetAtClone) {
+					// the bytes behind Len() are the caller's (the old routine in a ROM slot that is
+					// only replaced if the new one fits)
+					return &sim.Violation{Oracle: "append_refusal_not_atomic", Step: i, Msg: fmt.Sprintf("a refused Append wrote into the original's target buffer (offset %d, behind its Len)", firstDiff(aTarget, aTargetAtClone))}
+				}
 				st.State(sim.HashU64(uint64(headSize), uint64(tailSize)))
 				return nil // nothing to compare with the direct emitter
 			}
